@@ -109,6 +109,11 @@ var c12Menu = []string{
 
 var c12SmallMenu = []string{"@error", "@empty", "|", "=", "\n", "*!", "''", "99999999999999999999", "[z-a]", "(", "@left(0)"}
 
+// menus for the pairs of deviations
+var c12PairMenuQuick = []string{"@error", "|", "=", "''", "*!", "("}
+
+var c12PairMenu = append(append([]string{}, c12PairMenuQuick...), "@empty", "\n", "?", ")", "@left(0)", "'+'", "x", "[a-c]-[a]", "@frag", "{", "}", "@list", "99999999999999999999")
+
 var c12Bytes = []byte{0, '\n', '\r', '\'', '\\', '@', '[', ']', '{', '}', 0x80, 0xFF}
 
 type c12Seed struct {
@@ -299,7 +304,12 @@ func c12Worker(c *mc.Ctx) {
 			case <-done:
 				return
 			case <-t.C:
-				if time.Since(caseStart) > 120*time.Second {
+				// compiling the generator is not a case: it only gets a much longer allowance
+				limit := 120 * time.Second
+				if current == "building lox" {
+					limit = 20 * time.Minute
+				}
+				if time.Since(caseStart) > limit {
 					fmt.Fprintf(os.Stderr, "C12 worker %d: case %q exceeded the 120 s watchdog; shard marked inconclusive\n", c.Shard, current)
 					c.Stats.Inconcl++
 					c.Stats.Cap("a case exceeded the 120 s watchdog (possible generator hang, not decided): " + current)
@@ -390,6 +400,62 @@ func c12Worker(c *mc.Ctx) {
 					continue
 				}
 				try(&seed, fmt.Sprintf("byte %d -> 0x%02X", k, b), text[:k]+string([]byte{b})+text[k+1:])
+			}
+		}
+	}
+	// bound 2: every pair of deviations (at two different tokens) around the
+	// tiny seed, from a reduced lexeme menu
+	{
+		var seed c12Seed
+		for _, sd := range c12Seeds(c.Quick()) {
+			if sd.name == "tiny" {
+				seed = sd
+			}
+		}
+		menu := c12PairMenuQuick
+		if !c.Quick() {
+			menu = c12PairMenu
+		}
+		toks := loxTokens(seed.files[seed.main])
+		type mutation struct {
+			site int
+			desc string
+			repl []string // what token #site becomes
+		}
+		var muts []mutation
+		for i := range toks {
+			if strings.TrimSpace(toks[i]) == "" && toks[i] != "\n" {
+				continue
+			}
+			muts = append(muts, mutation{i, fmt.Sprintf("delete #%d %q", i, toks[i]), nil})
+			for _, m := range menu {
+				muts = append(muts, mutation{i, fmt.Sprintf("replace #%d %q by %q", i, toks[i], m), []string{m}})
+				muts = append(muts, mutation{i, fmt.Sprintf("insert %q before #%d", m, i), []string{m, " ", toks[i]}})
+			}
+		}
+		c.Stats.Sample(map[string]any{"seed": "tiny", "bound": 2, "single_deviations": len(muts), "menu": menu})
+		for a := 0; a < len(muts); a++ {
+			for b := a + 1; b < len(muts); b++ {
+				if muts[a].site == muts[b].site {
+					continue
+				}
+				n++
+				if !c.Mine(n) {
+					continue
+				}
+				n-- // try() counts again
+				var out []string
+				for i, t := range toks {
+					switch i {
+					case muts[a].site:
+						out = append(out, muts[a].repl...)
+					case muts[b].site:
+						out = append(out, muts[b].repl...)
+					default:
+						out = append(out, t)
+					}
+				}
+				try(&seed, muts[a].desc+" and "+muts[b].desc, strings.Join(out, ""))
 			}
 		}
 	}
@@ -609,7 +675,7 @@ func init() {
 	mc.Register(&mc.Check{
 		ID:    "C12",
 		Level: "fault_enumeration",
-		Rule: "deviation-bounded exploration around valid inputs (bound 1): seeds = well-formed specifications (C17's bases, a tiny expression grammar, the bundled examples; thorough: lox's own parser.lox and all examples); at EVERY token position: delete, duplicate, transpose, replace by / insert each lexeme of a menu of ~75 extremes (every keyword, every punctuation, huge and zero numbers, degenerate literals and classes, reserved and ill-formed names); every byte-level truncation; every single-byte substitution by 12 special bytes; " +
+		Rule: "deviation-bounded exploration around valid inputs (bound 1): seeds = well-formed specifications (C17's bases, a tiny expression grammar, the bundled examples; thorough: lox's own parser.lox and all examples); at EVERY token position: delete, duplicate, transpose, replace by / insert each lexeme of a menu of ~75 extremes (every keyword, every punctuation, huge and zero numbers, degenerate literals and classes, reserved and ill-formed names); every byte-level truncation; every single-byte substitution by 12 special bytes; bound 2: every pair of {delete, replace by, insert} deviations at two different tokens of the tiny expression grammar from a reduced menu of 6 (thorough: 19) lexemes; " +
 			"each case runs the whole pipeline in process under recover() (front end, then - with action methods derived from the grammar object lox built - AssignActions and EmitParser); oracle: returns; success => three generated files that parse and type-check with the package; failure => at least one diagnostic; never a panic. " +
 			"Go-package axis: a finite menu of ~35 package configurations (missing/ill-typed/ill-shaped packages, stale generated files, no go.mod) run through the real binary; non-trivial = one mutation site or package configuration",
 		Assume: []string{
